@@ -30,6 +30,7 @@ LayoutVerdicts(e) ==
   \cup (IF (Len(e.bad) > Len(e.vols)) => e.repair.err = "notenough" THEN {} ELSE {"C10.reader.too_few_is_typed"})
   \cup (IF e.verify.err # "panic" /\ e.repair.err # "panic" THEN {} ELSE {"C13.no_panic"})
   \cup (IF e.outside = << >> THEN {} ELSE {"C02.nothing_else_changed"})
+  \cup (IF e.changed_ok THEN {} ELSE {"C02.write_discipline"})
 
 Verdicts(e) == CASE e.ev = "p1set" -> SetVerdicts(e, "C10.writer.")
                  [] e.ev = "p1refset" -> SetVerdicts(e, "OBS.ref.")
